@@ -49,8 +49,8 @@ Print Assumptions delete_node_preserves.
 Theorem add_column_preserves : forall g n ns ce s g', Inv g -> col_args_ok g n ns -> col_derived_ok g n -> add_column g n ns ce s = Ok g' -> Inv g'.
 Proof. exact add_column_inv. Qed.
 Print Assumptions add_column_preserves.
-Theorem delete_column_preserves : forall g n g', fx_nbr (fx g) = false -> Inv g -> llist g = [] -> delete_column g n = Ok g' -> Inv g'.
-Proof. exact delete_column_inv. Qed.
+Theorem delete_column_preserves : forall g n g', Inv g -> llist g = [] -> delete_column g n = Ok g' -> Inv g'.
+Proof. exact delete_column_inv_any. Qed.
 Print Assumptions delete_column_preserves.
 Theorem delete_column_keeps_all_but_names : forall g n g', InvS g -> delete_column g n = Ok g' ->
   InvS g' /\ (fx_nbr (fx g) = false -> S3b g -> S3b g') /\ (S5n g -> S5n g') /\ (llist g = [] -> S6 g -> S6 g').
@@ -59,9 +59,9 @@ Print Assumptions delete_column_keeps_all_but_names.
 Theorem add_connection_preserves : forall g a b g', Inv g -> conn_args_ok g a b -> conn_derived_ok g a b -> add_connection g a b = Ok g' -> Inv g'.
 Proof. exact add_connection_inv. Qed.
 Print Assumptions add_connection_preserves.
-Theorem delete_connection_preserves : forall g key g', fx_nbr (fx g) = false -> Inv g -> joined_otherwise g key -> llist g = [] ->
+Theorem delete_connection_preserves : forall g key g', Inv g -> (fx_nbr (fx g) = true \/ joined_otherwise g key) -> llist g = [] ->
   delete_connection g key = Ok g' -> Inv g'.
-Proof. exact delete_connection_inv. Qed.
+Proof. exact delete_connection_inv_any. Qed.
 Print Assumptions delete_connection_preserves.
 Theorem add_layer_preserves : forall g n b c t, Inv g -> no_dependants g -> Inv (add_layer g n b c t).
 Proof. exact add_layer_inv. Qed.
@@ -127,10 +127,11 @@ Print Assumptions refine_layers_reestablishes.
 Theorem rotate_preserves : forall g ps cs g', Inv g -> move_nodes g ps cs = Ok g' -> Inv g'.
 Proof. exact move_nodes_inv. Qed.
 Print Assumptions rotate_preserves.
+(** translate: every elevation moves by the same amount, so layer counts and name lists stay right *)
+Theorem translate_preserves : forall g dx dy dz, Inv g -> Inv (translate g dx dy dz).
+Proof. exact translate_inv. Qed.
+Print Assumptions translate_preserves.
 (** proved only for part of the invariant (the rest is covered by the correspondence run and the oracle) *)
-Theorem translate_object_graph_partial : forall g dx dy dz, InvS g -> InvS (translate g dx dy dz).
-Proof. exact translate_invS. Qed.
-Print Assumptions translate_object_graph_partial.
 Theorem snap_columns_to_layers_partial : forall g minth names g', InvS g -> S3b g -> snap_columns_to_layers g minth names = Ok g' ->
   InvS g' /\ S3b g' /\ (qltb 0 minth = true -> S6 g').
 Proof. exact InvCompound.snap_columns_to_layers_partial. Qed.
@@ -147,6 +148,15 @@ Theorem reduce_object_graph_partial : forall g names hm hbad g', InvS g ->
   reduce g names hm hbad = Ok g' -> InvS g'.
 Proof. exact reduce_invS. Qed.
 Print Assumptions reduce_object_graph_partial.
+
+(** reduce keeps the WHOLE invariant when the remaining columns still form a valid mesh (nothing missing -- checked by the
+    empty hint --, no extra connection, layers containing their centres) *)
+Theorem reduce_valid_mesh_preserves : forall g names hbad g', Inv g -> reduce g names [] hbad = Ok g' ->
+  (forall keep g1, lookup_cols g names = Ok keep -> delete_columns g (map (cn g) (filter (fun c => negb (mem c keep)) (clist g))) = Ok g1 ->
+     extra_keys g1 = [] /\ layers_fine g1) ->
+  Inv g'.
+Proof. exact reduce_inv_clean. Qed.
+Print Assumptions reduce_valid_mesh_preserves.
 
 (** any edit, then any finite sequence of edits *)
 Theorem geo_inv_step : forall g o g', Inv g -> pre g o -> step g o = Ok g' -> Inv g'.
